@@ -53,6 +53,8 @@ def verlet_case(draw):
         "masses": masses, "disp": [[draw(fl(-0.3, 0.3)) for _ in range(3)] for _ in range(n)],
         "T": draw(log10_floats(1.5, 3.5)), "mom": [[draw(fl(-1.5, 1.5)) for _ in range(3)] for _ in range(n)],
         "x": draw(fl(0.01, 0.3)), "steps": draw(st.integers(1, 50)),
+        # the calculator may hold results of an earlier configuration when the integration starts
+        "stale": draw(st.booleans()),
     }
 
 
@@ -68,6 +70,10 @@ def setup_verlet(case):
     atoms.set_masses(m)
     params = {"k": case["k"], "kvec": case["kvec"], "center": tuple(centre), "q": case["q"], "a": case["a"], "s": 1.5}
     atoms.calc = ModelCalc(case["kind"], params)
+    if case.get("stale"):
+        atoms.set_positions(pos + 0.37)
+        atoms.get_forces()  # results of another configuration stay cached in the calculator
+        atoms.set_positions(pos)
     p = np.array(case["mom"], dtype=float) * np.sqrt(m * kB * case["T"])[:, None]
     atoms.set_momenta(p)
     kmax = case["k"] * max(case["kvec"]) + (12 * case["q"] * 0.3 ** 2 if case["kind"] == "quartic" else 0.0) + (2 * case["a"] / 1.5 ** 2 * 2 if case["kind"] == "pair" else 0.0)
@@ -87,11 +93,9 @@ def run_verlet(case):
             atoms, ctx, dt_fs = setup_verlet(case)
             n = case["steps"]
             x0, p0 = atoms.positions.copy(), atoms.get_momenta().copy()
-            e0 = atoms.get_total_energy()
             v = Verlet(dt=dt_fs, max_steps=n)
             v.integrate(ctx)
             x1, p1 = atoms.positions.copy(), atoms.get_momenta().copy()
-            e1 = atoms.get_total_energy()
             atoms.set_momenta(-p1)
             v.integrate(ctx)
             xb, pb = atoms.positions.copy(), -atoms.get_momenta()
@@ -115,7 +119,7 @@ def run_verlet(case):
     def max_err(dt, nsteps, every):
         with warnings.catch_warnings():
             warnings.simplefilter("ignore")
-            a2, c2, _ = setup_verlet(case)
+            a2, c2, _ = setup_verlet(dict(case, stale=False))
             e_start = a2.get_total_energy()
             one = Verlet(dt=dt, max_steps=1)
             worst = 0.0
